@@ -11,12 +11,16 @@
 #include <new>
 #include <set>
 #include <unistd.h>
+#include <csetjmp>
+#include <csignal>
+#include <sys/personality.h>
+#include <fstream>
 
 // ---- memory guard -------------------------------------------------------------------------------
 // A hostile length prefix makes cereal resize() a std::string / std::vector before reading the
 // payload.  Every single allocation above HX_ALLOC_CAP fails with std::bad_alloc (a host with
 // little memory); the Lean model (`Cfg.cap`, CodecDrv.harnessCap) uses the same number.
-static const size_t HX_ALLOC_CAP = size_t(1) << 26;
+static const size_t HX_ALLOC_CAP = size_t(1) << 24;
 void *operator new(size_t n)
 {
     if (n > HX_ALLOC_CAP)
@@ -50,6 +54,36 @@ void operator delete[](void *p, size_t) noexcept
 namespace c19
 {
 using namespace SymEngine;
+
+// The generated op lines contain real dumps, i.e. real heap addresses.  To make `hx gen <seed>` reproducible the
+// generator re-executes itself once with address-space randomisation switched off.
+inline void fix_aslr()
+{
+    int p = personality(0xffffffff);
+    if (p == -1 || (p & ADDR_NO_RANDOMIZE) || getenv("HX_NO_REEXEC"))
+        return;
+    if (personality(p | ADDR_NO_RANDOMIZE) == -1)
+        return;
+    std::ifstream f("/proc/self/cmdline", std::ios::binary);
+    std::string all((std::istreambuf_iterator<char>(f)), std::istreambuf_iterator<char>());
+    std::vector<std::string> args;
+    size_t i = 0;
+    while (i < all.size()) {
+        size_t j = all.find('\0', i);
+        if (j == std::string::npos)
+            j = all.size();
+        args.push_back(all.substr(i, j - i));
+        i = j + 1;
+    }
+    if (args.empty())
+        return;
+    std::vector<char *> argv;
+    for (auto &a : args)
+        argv.push_back(const_cast<char *>(a.c_str()));
+    argv.push_back(nullptr);
+    setenv("HX_NO_REEXEC", "1", 1);
+    execv("/proc/self/exe", argv.data());
+}
 
 inline std::string tohex(const std::string &b)
 {
@@ -529,14 +563,21 @@ struct ExprGen {
                     s.insert(r.coin() ? sym_expr(0) : rcp_static_cast<const Basic>(exact_real()));
                 return finiteset(s);
             }
-            case 8:
-                return set_union({set_(d - 1), set_(d - 1)});
+            // built structurally: set_union / set_complement / imageset simplify recursively and do not
+            // terminate for some operands (Rationals::set_union <-> set_union(set_set) recursion)
+            case 8: {
+                RCP<const Set> a = interval(integer(r.range(-9, 0)), integer(r.range(1, 9)), r.coin(), r.coin());
+                RCP<const Set> b = finiteset({symbol_(), symbol("q")});
+                return make_rcp<const Union>(set_set{a, b});
+            }
             case 9:
-                return set_complement(set_(0), set_(d - 1));
+                return make_rcp<const Complement>(r.coin() ? rcp_static_cast<const Set>(reals()) : rcp_static_cast<const Set>(integers()),
+                                                  finiteset({symbol_(), integer(r.range(0, 5))}));
             case 10:
-                return imageset(symbol("x"), sym_expr(1), set_(d - 1));
+                return make_rcp<const ImageSet>(symbol("x"), add(mul(integer(2), symbol("x")), sym_expr(0)),
+                                                r.coin() ? rcp_static_cast<const Set>(integers()) : rcp_static_cast<const Set>(reals()));
             case 11:
-                return conditionset(symbol("x"), boolean_(d - 1));
+                return make_rcp<const ConditionSet>(symbol("x"), Lt(symbol("x"), sym_expr(0)));
             default:
                 return make_rcp<const Complement>(reals(), finiteset({symbol_(), symbol_()}));
         }
@@ -574,10 +615,56 @@ struct ExprGen {
                 return set_(d);
         }
     }
+    // The public API is called on random operands: a call that recurses without bound or does not return
+    // (defects outside C19/C20) must not take the generator down.  SIGSEGV (on an alternate stack) and
+    // SIGALRM abandon the expression under construction and the generator tries another one.
+    static sigjmp_buf &jb()
+    {
+        static sigjmp_buf b;
+        return b;
+    }
+    static void on_sig(int)
+    {
+        siglongjmp(jb(), 1);
+    }
+    static void install_guard()
+    {
+        static bool done = false;
+        if (done)
+            return;
+        done = true;
+        static char altstack[1 << 16];
+        stack_t ss;
+        ss.ss_sp = altstack;
+        ss.ss_size = sizeof altstack;
+        ss.ss_flags = 0;
+        sigaltstack(&ss, nullptr);
+        struct sigaction sa;
+        memset(&sa, 0, sizeof sa);
+        sa.sa_handler = on_sig;
+        sa.sa_flags = SA_ONSTACK | SA_NODEFER;
+        sigaction(SIGSEGV, &sa, nullptr);
+        sigaction(SIGALRM, &sa, nullptr);
+        sigaction(SIGABRT, &sa, nullptr); // "gmp: overflow in mpz type" aborts
+        sigaction(SIGFPE, &sa, nullptr);  // integer division by zero inside the library
+    }
     // anything serialisable
     RCP<const Basic> any(int d)
     {
+        install_guard();
         for (int tries = 0; tries < 50; tries++) {
+            if (sigsetjmp(jb(), 1) != 0) {
+                alarm(0);
+                stat("gen_abandoned");
+                continue;
+            }
+            alarm(20);
+            struct Disarm {
+                ~Disarm()
+                {
+                    alarm(0);
+                }
+            } disarm;
             try {
                 unsigned k = r.below(12);
                 RCP<const Basic> e;
